@@ -30,10 +30,75 @@ ASSUME = [
     "the property stream; a second stream violates them on purpose and only requires model = implementation",
     "cylindrical grids: droplets straddling the periodic z boundary are excluded (known finding F19: py-pde never wraps z)",
 ]
-RULE = ("property stream: emulsions of 1..4 sharp spheres with dyadic centres/radii on Cartesian grids d=1..3 (shapes 3..14, 3-d <= 8, all periodicity "
-        "masks, dyadic spacings/origins, centres also outside the box on periodic axes, droplets across boundaries and corners), centred droplets on "
-        "polar/spherical grids, on-axis droplets on cylindrical grids; non-trivial = at least one droplet crosses a periodic boundary or >= 2 droplets; "
+RULE = ("property stream: emulsions of 1..4 sharp spheres with dyadic centres/radii on Cartesian grids d=1..3 (shapes 3..14, 3-d <= 8, non-periodic axes "
+        "also with 1 or 2 thick cells, all periodicity masks, dyadic spacings, origins of every kind (zero, centred, positive, entirely negative), centres "
+        "also outside the box on periodic axes, droplets forced across periodic faces and corners and touching (not crossing) non-periodic faces), centred "
+        "droplets on polar/spherical grids (1..19 cells; inner radius > 0: count / centre / radius clauses only, see SUSPECTED), on-axis droplets on "
+        "cylindrical grids (regular, narrow and finely sliced, flat and wide, tiny; droplets touching the z faces); every image is located a second time "
+        "as float32 / int64 / uint8 / bool data and with a minimal_radius boundary value (must reproduce the reference call resp. the documented filter); "
+        "non-trivial = at least one droplet crosses a periodic boundary or >= 2 droplets; "
         "plus all single-droplet placements on a 1/4-cell sub-lattice of a 5x6 periodic grid (thorough) and a precondition-violating stream")
+
+# Inputs on which the unchanged /repo does not satisfy the property text as written and that wait for a decision of the
+# lead: executed and reported in the evidence notes, NOT judged (notes/audit_task.md).
+SUSPECTED = [
+    {"id": "S-C01-1", "class": "polar / spherical grid with inner radius > 0: volume clause",
+     "what": "on PolarSymGrid / SphericalSymGrid with inner radius r_in > 0 the located SphericalDroplet sits at the origin with radius = outer radius of "
+             "the innermost cluster, i.e. its volume is that of the FULL ball, not the total volume of the covered (shell) cells, which is smaller by the "
+             "volume of the hole; count, centre and the half-spacing radius clause hold and are judged"},
+]
+
+# minimal_radius values handed to the second call (documented: droplets with radius <= minimal_radius are dropped)
+MIN_RADIUS_KINDS = ["int 0", "float 0.0", "-0.0", "-1", "-inf", "numpy float64 0", "numpy 0-d array 0", "5e-324",
+                    "just below the smallest radius", "exactly the smallest radius", "exactly the largest radius"]
+
+
+def min_radius_value(kind, radii):
+    return {"int 0": 0, "float 0.0": 0.0, "-0.0": -0.0, "-1": -1, "-inf": -math.inf, "numpy float64 0": np.float64(0),
+            "numpy 0-d array 0": np.array(0.0), "5e-324": 5e-324,
+            "just below the smallest radius": float(np.nextafter(min(radii), 0)) if radii else 0.0,
+            "exactly the smallest radius": float(min(radii)) if radii else 0.0,
+            "exactly the largest radius": float(max(radii)) if radii else 0.0}[kind]
+
+
+MINR_LITS: list = []   # in-Coq correspondence of the minimal_radius filter (Model/Overlap.v remove_small), filled by second_call_failure
+MINR_META: list = []
+
+
+def second_call_failure(field, em_ref, dtype, mr_kind):
+    """The same image as `dtype` data and with a minimal_radius boundary value: must return the droplets of the
+    reference call whose radius exceeds minimal_radius (bitwise), must not raise and must not modify the field."""
+    from pde import ScalarField
+    from droplets.image_analysis import locate_droplets
+    from droplets import Emulsion
+    radii = [float(d.radius) for d in em_ref]
+    mr = min_radius_value(mr_kind, radii)
+    f2 = ScalarField(field.grid, field.data.astype(dtype), dtype=dtype)
+    before = f2.data.copy()
+    what = f"image as {dtype} data, minimal_radius={mr!r} ({mr_kind})"
+    try:
+        em2 = locate_droplets(f2, minimal_radius=mr)
+    except Exception as e:  # noqa
+        return f"{what}: raised {type(e).__name__}: {e}"
+    if f2.data.dtype != before.dtype or not np.array_equal(f2.data, before):
+        return f"{what}: the data of the field was modified"
+    keys_ref, keys2 = lc.emulsion_key(em_ref), lc.emulsion_key(em2)
+    if math.isfinite(float(mr)) and radii and isinstance(keys2, list):
+        # which droplets of the reference call came back (in order); the filter itself is compared with the model inside Coq
+        out, start = [], 0
+        for k in keys2:
+            if k in keys_ref[start:]:
+                start = keys_ref.index(k, start) + 1
+                out.append(start - 1)
+            else:
+                out = None
+                break
+        if out is not None:
+            MINR_LITS.append("{| rs_mn := %s; rs_rad := %s; rs_out := %s |}"
+                             % (vlib.qlit(float(mr)), vlib.listlit(radii, vlib.qlit), vlib.listlit(out, lambda i: f"{i}%nat")))
+            MINR_META.append({"radii": radii, "minimal_radius": float(mr), "kind": mr_kind, "returned": out})
+    want = Emulsion([d for d in em_ref if not d.radius <= float(mr)])
+    return lc.same_result(want, em2, what)
 
 
 def dy(rng, lo, hi, k=4):
@@ -47,13 +112,25 @@ def rho(r, h):
 
 
 def gen_cart(rng, want_valid=True):
+    """returns (grid, droplets, info) with info = origin kinds per axis and how centres were placed"""
     from pde import CartesianGrid
     dim = rng.choice([1, 2, 2, 3])
     nmax = {1: 14, 2: 12, 3: 7}[dim]
-    shape = [rng.randrange(3, nmax + 1) for _ in range(dim)]
-    hs = [rng.choice([0.5, 1.0, 1.0, 1.5, 2.0]) if rng.random() < 0.5 else 1.0 for _ in range(dim)]
-    los = [dy(rng, -4, 4, 2) for _ in range(dim)]
     per = [rng.random() < 0.6 for _ in range(dim)]
+    shape, hs = [], []
+    for p in per:
+        if not p and dim > 1 and rng.random() < 0.15:
+            # a slab: 1 or 2 thick cells along a non-periodic axis (a periodic axis needs 2 r + 2 h <= L, i.e. >= 3 cells)
+            shape.append(rng.choice([1, 2]))
+            hs.append(rng.choice([1.0, 2.0, 4.0]))
+        else:
+            shape.append(rng.randrange(3, nmax + 1))
+            hs.append(rng.choice([0.5, 1.0, 1.0, 1.5, 2.0]) if rng.random() < 0.5 else 1.0)
+    los, okinds = [], []
+    for n, h in zip(shape, hs):
+        lo, kind = lc.axis_origin(rng, n, h)
+        los.append(lo)
+        okinds.append(kind)
     grid = CartesianGrid([(lo, lo + n * h) for lo, n, h in zip(los, shape, hs)], shape, periodic=per)
     L = [n * h for n, h in zip(shape, hs)]
     nd = rng.choice([1, 1, 2, 2, 3, 4])
@@ -65,15 +142,29 @@ def gen_cart(rng, want_valid=True):
         if rmax <= 0.25:
             break
         r = dy(rng, 0.25, min(rmax, 3.5), 3)
+        if not want_valid and rng.random() < 0.1:
+            r = 0.0  # a vanished droplet among the others (covers nothing)
         c = []
-        for lo, Li, p in zip(los, L, per):
+        corner = rng.random() < 0.2   # straddle every periodic face at once: an edge / a corner of the periodic box
+        for lo, Li, p, hi_ in zip(los, L, per, hs):
             if p:
-                c.append(dy(rng, lo - Li, lo + 2 * Li, 4))  # also outside the box
+                if corner or rng.random() < 0.3:
+                    # straddle a periodic face: centre within r of the lower / upper bound (or of their periodic images);
+                    # often nearly tangent from inside, so that only a sliver of at most one cell layer lies beyond the face
+                    face = lo + rng.choice([-1, 0, 0, 1, 1, 2]) * Li
+                    if rng.random() < 0.4:
+                        c.append(face + rng.choice([-1, 1]) * max(r - dy(rng, 0, min(hi_, r), 4), 0.0))
+                    else:
+                        c.append(face + dy(rng, -r, r, 4))
+                else:
+                    c.append(dy(rng, lo - Li, lo + 2 * Li, 4))  # also outside the box
             else:
                 if lo + r > lo + Li - r:
                     c = None
                     break
-                c.append(dy(rng, lo + r, lo + Li - r, 4))
+                u = rng.random()
+                # touching (not crossing) a non-periodic face: the sphere is tangent to it
+                c.append(lo + r if u < 0.08 else lo + Li - r if u < 0.16 else dy(rng, lo + r, lo + Li - r, 4))
         if c is None:
             continue
         if want_valid:
@@ -85,7 +176,35 @@ def gen_cart(rng, want_valid=True):
             if not okk:
                 continue
         drops.append((c, r))
-    return grid, drops
+    return grid, drops, {"origin_kinds": okinds}
+
+
+def count_cart(ctx, grid, drops, info):
+    """histogram of the geometric input dimensions of one Cartesian case; returns whether a droplet crosses a periodic face"""
+    lc.count_grid(ctx, grid, info.get("origin_kinds"))
+    per = [bool(p) for p in grid.periodic]
+    lo = np.array([b[0] for b in grid.axes_bounds])
+    hi = np.array([b[1] for b in grid.axes_bounds])
+    crossed, touching, outside = set(), False, False
+    for c, r in drops:
+        c = np.array(c, float)
+        outside = outside or bool(np.any((c < lo) | (c >= hi)))
+        cw = np.array(grid.normalize_point(c))
+        axes = [ax for ax in range(grid.num_axes) if per[ax] and (cw[ax] - r < lo[ax] or cw[ax] + r > hi[ax])]
+        crossed.update(axes)
+        ctx.count("periodic_faces_crossed_by_one_droplet", len(axes))   # 2, 3 = across an edge / a corner of the box
+        touching = touching or any(not per[ax] and (c[ax] - r == lo[ax] or c[ax] + r == hi[ax]) for ax in range(grid.num_axes))
+    for ax in sorted(crossed):
+        if grid.num_axes > 1:
+            ctx.count("crossed_axis_position", "first" if ax == 0 else "last" if ax == grid.num_axes - 1 else "middle")
+        if ax > 0:
+            ctx.count("crossed_later_axis_cells_vs_axis0",
+                      "equal" if grid.shape[ax] == grid.shape[0] else "fewer" if grid.shape[ax] < grid.shape[0] else "more")
+        if any(not per[a] for a in range(ax)):
+            ctx.count("crossed_axis_after_nonperiodic_axis", True)
+    ctx.count("centre_outside_box", outside)
+    ctx.count("touches_nonperiodic_face", touching)
+    return bool(crossed)
 
 
 def covered_cells(grid, c, r):
@@ -100,8 +219,11 @@ def run_cart(grid, drops):
     from scipy import ndimage
     em0 = Emulsion([SphericalDroplet(np.array(c, float), r) for c, r in drops])
     field = em0.get_phasefield(grid)
+    before = field.data.copy()
     with lc.Recorder() as rec:
         em = locate_droplets(field)
+    if not np.array_equal(field.data, before):
+        raise RuntimeError("locate_droplets modified the data of the field")
     mask = field.data > 0.5
     labels, n = ndimage.label(mask)
     return field, mask, labels, em, (rec.log[0] if rec.log else None)
@@ -112,6 +234,9 @@ def oracle_cart(grid, drops, em):
     h = np.array(grid.discretization)
     cellvol = float(np.prod(h))
     per = list(map(bool, grid.periodic))
+    kind = lc.emulsion_key(em)
+    if isinstance(kind, str):
+        return kind
     if len(em) != len(drops):
         return f"{len(em)} droplet(s) returned for {len(drops)} original(s)"
     unused = list(range(len(em)))
@@ -144,26 +269,40 @@ def cart_lit(grid, drops, labels, rec):
 
 # ---- symmetric grids -----------------------------------------------------------------------------
 def gen_radial(rng):
+    """returns (grid, R, how R was chosen)"""
     from pde import PolarSymGrid, SphericalSymGrid
     cls = rng.choice((PolarSymGrid, SphericalSymGrid))
-    n = rng.randrange(2, 20)
+    n = rng.randrange(1, 20)
     dr = rng.choice([0.25, 0.5, 1.0, 2.0])
-    grid = cls(n * dr, n)
-    R = dy(rng, dr / 2 + 1 / 16, n * dr, 4)
-    return grid, R
+    rlo = 0.0 if rng.random() < 0.7 else rng.choice([dr / 2, dr, 2 * dr, 0.25, 3.0])
+    grid = cls((rlo, rlo + n * dr), n)
+    u = rng.random()
+    if u < 0.1:
+        R, how = rlo + n * dr, "outer radius of the grid"
+    elif u < 0.25 and n >= 2:
+        R, how = rlo + (rng.randrange(1, n) + 0.5) * dr, "exactly on a cell centre"  # that cell is not covered (strict <)
+    else:
+        R, how = dy(rng, rlo + dr / 2 + 1 / 16, rlo + n * dr, 4), "generic"
+    return grid, R, how
 
 
 def run_radial(grid, R):
     from droplets import SphericalDroplet
     from droplets.image_analysis import locate_droplets
     field = SphericalDroplet(np.zeros(grid.dim), R).get_phase_field(grid)
+    before = field.data.copy()
     em = locate_droplets(field)
-    return field.data > 0.5, em
+    if not np.array_equal(field.data, before):
+        raise RuntimeError("locate_droplets modified the data of the field")
+    return field, field.data > 0.5, em
 
 
-def oracle_radial(grid, R, mask, em):
+def oracle_radial(grid, R, mask, em, judge_volume=True):
     rlo, rhi = grid.axes_bounds[0]
     dr = (rhi - rlo) / grid.shape[0]
+    kind = lc.emulsion_key(em)
+    if isinstance(kind, str):
+        return kind
     if len(em) != 1:
         return f"{len(em)} droplets for one centred original"
     d = em[0]
@@ -172,29 +311,48 @@ def oracle_radial(grid, R, mask, em):
     if abs(d.radius - R) > dr / 2 + 1e-12:
         return f"radius {d.radius} not within half a radial spacing of {R}"
     vol = float((grid.cell_volumes * mask).sum())
-    if abs(d.volume - vol) > 1e-9 * vol:
+    if judge_volume and abs(d.volume - vol) > 1e-9 * vol:
         return f"volume {d.volume} is not the total volume {vol} of the covered cells"
     return None
 
 
 def gen_cyl(rng):
+    """returns (grid, droplets, info)"""
     from pde import CylindricalSymGrid
-    nr, nz = rng.randrange(2, 9), rng.randrange(4, 15)
-    dr, dz = rng.choice([0.5, 1.0, 1.0]), rng.choice([0.5, 1.0, 1.0, 2.0])
-    zlo = dy(rng, -6, 6, 1)
+    form = rng.choice(["regular", "regular", "regular", "narrow", "flat", "tiny", "long"])
+    if form == "long":  # room for several droplets along z
+        nr, nz = rng.randrange(2, 5), rng.randrange(16, 31)
+        dr, dz = rng.choice([0.5, 1.0]), rng.choice([0.5, 1.0])
+    elif form == "regular":
+        nr, nz = rng.randrange(2, 9), rng.randrange(4, 15)
+        dr, dz = rng.choice([0.5, 1.0, 1.0]), rng.choice([0.5, 1.0, 1.0, 2.0])
+    elif form == "narrow":  # few radial cells, finely sliced: a droplet is longer in z-cells than the grid has radial cells
+        nr, nz = rng.randrange(1, 4), rng.randrange(10, 29)
+        dr, dz = rng.choice([1.0, 2.0]), rng.choice([0.25, 0.5])
+    elif form == "flat":  # many radial cells, few thick z layers
+        nr, nz = rng.randrange(6, 15), rng.randrange(1, 5)
+        dr, dz = rng.choice([0.25, 0.5, 1.0]), rng.choice([1.0, 2.0, 4.0])
+    else:
+        nr, nz = rng.randrange(1, 3), rng.randrange(1, 3)
+        dr, dz = rng.choice([1.0, 2.0]), rng.choice([1.0, 2.0, 4.0])
+    zlo, okind = lc.axis_origin(rng, nz, dz)
     per = rng.random() < 0.5
     grid = CylindricalSymGrid(nr * dr, (zlo, zlo + nz * dz), (nr, nz), periodic_z=per)
     drops = []
+    touch = False
+    nd = rng.choice([2, 3, 3]) if form == "long" else rng.choice([1, 1, 2])
     for _ in range(30):
-        if len(drops) == rng.choice([1, 1, 2]):
+        if len(drops) == nd:
             break
         Rmax = min(nr * dr, nz * dz / 2)
         if Rmax <= 0.75:
             break
-        R = dy(rng, 0.75, min(Rmax, 4.0), 3)
+        R = dy(rng, 0.75, min(Rmax, 1.5 if form == "long" else 4.0), 3)
         if zlo + R > zlo + nz * dz - R:
             continue
-        c = dy(rng, zlo + R, zlo + nz * dz - R, 4)
+        u = rng.random()
+        # tangent to the lower / upper z face (inside the z-range: never straddling, see F19)
+        c = zlo + R if u < 0.15 else zlo + nz * dz - R if u < 0.3 else dy(rng, zlo + R, zlo + nz * dz - R, 4)
         hs = [dr, dr, dz]
         Lz = nz * dz
 
@@ -203,7 +361,8 @@ def gen_cyl(rng):
             return min(d, Lz - d) if per else d
         if all(zdist(c, c2) >= rho(R, hs) + rho(R2, hs) + 2 * math.sqrt(sum(h * h for h in hs)) for c2, R2 in drops):
             drops.append((c, R))
-    return grid, drops
+            touch = touch or u < 0.3
+    return grid, drops, {"form": form, "z_origin_kind": okind, "touches_z_face": touch}
 
 
 def run_cyl(grid, drops):
@@ -217,6 +376,9 @@ def oracle_cyl(grid, drops, mask, em):
     (rlo, R_out), (zlo, zhi) = grid.axes_bounds
     nr, nz = grid.shape
     dr, dz = R_out / nr, (zhi - zlo) / nz
+    kind = lc.emulsion_key(em)
+    if isinstance(kind, str):
+        return kind
     if len(em) != len(drops):
         return f"{len(em)} droplet(s) returned for {len(drops)} on-axis original(s)"
     rr = (np.arange(nr) + 0.5) * dr
@@ -234,6 +396,8 @@ def oracle_cyl(grid, drops, mask, em):
 
 def check(ctx: vlib.Ctx) -> int:
     rng = random.Random(ctx.seed)
+    MINR_LITS.clear()
+    MINR_META.clear()
     ok = vlib.prove(ctx, ["Proofs/C01.vo", "Proofs/LabelClients.vo", "Proofs/C01Cyl.vo", "Proofs/C01CylPer.vo", "Proofs/C01Multi.vo", "Proofs/C01CylMulti.vo", "Proofs/BallCount.vo",
                           "Model/LocateCases.vo"], gens=[])
     # R-layer part (separation => located spheres do not overlap), over the generated radius_from_volume
@@ -254,22 +418,23 @@ def check(ctx: vlib.Ctx) -> int:
         from pde import CartesianGrid
         g56 = CartesianGrid([(0, 5), (0, 6)], [5, 6], periodic=True)
         for ix, iy, r in itertools.product(range(20), range(24), [0.75, 1.25, 1.75]):
-            specs.append((g56, [([ix / 4, iy / 4], r)], "property"))
-    for grid, drops, stream in specs:
-        if not drops:
-            continue
-        field, mask, labels, em, rec = run_cart(grid, drops)
-        h = np.array(grid.discretization)
-        crossing = any(np.any((np.array(c) - r < [b[0] for b in grid.axes_bounds]) | (np.array(c) + r > [b[1] for b in grid.axes_bounds]))
-                       for c, r in drops)
+            specs.append((g56, [([ix / 4, iy / 4], r)], {}, "property"))
+    for case_no, (grid, drops, info, stream) in enumerate(specs):
+        # no admissible droplet on this grid: the empty emulsion (image without any droplet) must give an empty result
         inp = {"family": "cartesian", "shape": list(grid.shape), "bounds": [list(map(float, b)) for b in grid.axes_bounds],
                "periodic": list(map(bool, grid.periodic)), "droplets": [[list(c), r] for c, r in drops], "stream": stream}
-        ctx.case(inp, nontrivial=crossing or len(drops) >= 2)
         ctx.count("stream", stream)
         ctx.count("dim", grid.dim)
         ctx.count("droplets", len(drops))
-        ctx.count("crosses_boundary", crossing)
         ctx.count("periodic_axes", int(sum(grid.periodic)))
+        crossing = count_cart(ctx, grid, drops, info)
+        ctx.count("crosses_boundary", crossing)
+        ctx.case(inp, nontrivial=crossing or len(drops) >= 2)
+        try:
+            field, mask, labels, em, rec = run_cart(grid, drops)
+        except Exception as e:  # noqa
+            fails.append({"what": f"rendering + locate_droplets raised {type(e).__name__}: {e}", "input": inp})
+            continue
         if stream == "property":
             if any(covered_cells(grid, c, r).sum() == 0 for c, r in drops):
                 ctx.count("skipped", "droplet covers no cell centre (not resolvable)")
@@ -277,7 +442,17 @@ def check(ctx: vlib.Ctx) -> int:
                 f = oracle_cart(grid, drops, em)
                 if f:
                     fails.append({"what": f, "input": inp})
+        # second call: other image dtype and a minimal_radius boundary value (both cycled deterministically)
+        dt = lc.FIELD_DTYPES[case_no % len(lc.FIELD_DTYPES)]
+        mrk = MIN_RADIUS_KINDS[(case_no // len(lc.FIELD_DTYPES)) % len(MIN_RADIUS_KINDS)]
+        ctx.count("image_dtype_second_call", dt)
+        ctx.count("minimal_radius_second_call", mrk)
+        if not isinstance(lc.emulsion_key(em), str):
+            f = second_call_failure(field, em, dt, mrk)
+            if f:
+                fails.append({"what": f, "input": {**inp, "dtype": dt, "minimal_radius": mrk}})
         if rec is not None:
+            lc.count_removals(ctx, rec["M"], [c[2] for c in rec["cands"]], rec["out"])
             lits.append(cart_lit(grid, drops, labels, rec))
             meta.append(inp)
     ctx.sample(meta[1] if len(meta) > 1 else {})
@@ -287,38 +462,77 @@ def check(ctx: vlib.Ctx) -> int:
             ctx.broken.append(f"correspondence render+locate (Cartesian): model and implementation differ on {meta[b]}")
     # ---- radial
     lits, meta = [], []
-    for _ in range(ctx.scale(150, 1500)):
-        grid, R = gen_radial(rng)
-        mask, em = run_radial(grid, R)
+    sus_seen, sus_volume_off, sus_example = 0, 0, None
+    for case_no in range(ctx.scale(180, 1800)):
+        grid, R, how = gen_radial(rng)
+        rlo, rhi = grid.axes_bounds[0]
         inp = {"family": type(grid).__name__, "n": int(grid.shape[0]), "bounds": list(map(float, grid.axes_bounds[0])), "radius": R}
         ctx.case(inp)
         ctx.count("radial_family", type(grid).__name__)
-        f = oracle_radial(grid, R, mask, em)
+        ctx.count("radial_inner_radius", "0" if rlo == 0 else "> 0 (volume clause not judged: SUSPECTED S-C01-1)")
+        ctx.count("radial_cells", int(grid.shape[0]) if grid.shape[0] < 3 else ">=3")
+        ctx.count("radial_R", how)
+        try:
+            field, mask, em = run_radial(grid, R)
+        except Exception as e:  # noqa
+            fails.append({"what": f"rendering + locate_droplets raised {type(e).__name__}: {e}", "input": inp})
+            continue
+        f = oracle_radial(grid, R, mask, em, judge_volume=(rlo == 0))
         if f:
             fails.append({"what": f, "input": inp})
-        rlo, rhi = grid.axes_bounds[0]
+        elif rlo != 0:
+            sus_seen += 1
+            fv = oracle_radial(grid, R, mask, em, judge_volume=True)
+            if fv:
+                sus_volume_off += 1
+                sus_example = sus_example or f"{type(grid).__name__}(({rlo}, {rhi}), {grid.shape[0]}), R={R}: {fv}"
+        dt = lc.FIELD_DTYPES[case_no % len(lc.FIELD_DTYPES)]
+        mrk = MIN_RADIUS_KINDS[(case_no // len(lc.FIELD_DTYPES)) % len(MIN_RADIUS_KINDS)]
+        ctx.count("radial_image_dtype_second_call", dt)
+        ctx.count("radial_minimal_radius_second_call", mrk)
+        if not isinstance(lc.emulsion_key(em), str):
+            f = second_call_failure(field, em, dt, mrk)
+            if f:
+                fails.append({"what": f, "input": {**inp, "dtype": dt, "minimal_radius": mrk}})
         out = f"(Some {vlib.qlit(em[0].radius)})" if len(em) else "None"
         lits.append("(%s, {| rd_lo := %s; rd_dr := %s; rd_mask := %s; rd_out := %s |})"
                     % (vlib.qlit(R), vlib.qlit(rlo), vlib.qlit((rhi - rlo) / grid.shape[0]), vlib.listlit(mask.tolist(), vlib.blit), out))
         meta.append(inp)
+    for sus in SUSPECTED:
+        ctx.notes.append(f"SUSPECTED {sus['id']} (executed, NOT judged, waiting for a decision): {sus['what']}. This run: {sus_seen} inputs with inner "
+                         f"radius > 0 passed the count / centre / radius clauses and the in-Coq correspondence, {sus_volume_off} of them violate the "
+                         f"volume clause as written{'; e.g. ' + sus_example if sus_example else ''}")
     if ok:
         bad = vlib.run_cases(ctx, "radial", header, lits, "c01_rad_agree", shard=400)
         for b in bad[:3]:
             ctx.broken.append(f"correspondence render+locate (radial): model and implementation differ on {meta[b]}")
     # ---- cylindrical
     lits, meta = [], []
-    for _ in range(ctx.scale(200, 2000)):
-        grid, drops = gen_cyl(rng)
+    for case_no in range(ctx.scale(240, 2400)):
+        grid, drops, info = gen_cyl(rng)
         if not drops:
+            ctx.count("cyl_form_without_admissible_droplet", info["form"])
             continue
-        mask, em, exc, lab_pad, lab, cands, out, M = run_cyl(grid, drops)
         inp = {"family": "cylindrical", "shape": list(grid.shape), "bounds": [list(map(float, b)) for b in grid.axes_bounds],
                "periodic_z": bool(grid.periodic[1]), "droplets": [[c, R] for c, R in drops]}
         ctx.case(inp, nontrivial=len(drops) >= 2)
         ctx.count("cyl_periodic", bool(grid.periodic[1]))
+        ctx.count("cyl_form", info["form"])
+        ctx.count("cyl_droplets", len(drops))
+        ctx.count("cyl_z_origin_kind", info["z_origin_kind"])
+        ctx.count("cyl_droplet_tangent_to_z_face", info["touches_z_face"])
+        ctx.count("cyl_dr_vs_dz", lc.order_of([float(h) for h in grid.discretization]))
+        ctx.count("cyl_min_cells_per_axis", min(grid.shape) if min(grid.shape) < 4 else ">=4")
+        dz = float(grid.discretization[1])
+        ctx.count("cyl_droplet_longer_in_z_cells_than_nr", any(2 * R / dz > grid.shape[0] for _, R in drops))
+        try:
+            mask, em, exc, lab_pad, lab, cands, out, M = run_cyl(grid, drops)
+        except Exception as e:  # noqa
+            mask, exc = None, f"{type(e).__name__}: {e}"
         if exc:
             fails.append({"what": f"raised {exc}", "input": inp})
             continue
+        ctx.count("cyl_first_z_cell_on_axis_covered", bool(mask[0, 0]))
         (_, R_out), (zlo, zhi) = grid.axes_bounds
         rr = (np.arange(grid.shape[0]) + 0.5) * R_out / grid.shape[0]
         zz = zlo + (np.arange(grid.shape[1]) + 0.5) * (zhi - zlo) / grid.shape[1]
@@ -328,6 +542,15 @@ def check(ctx: vlib.Ctx) -> int:
             f = oracle_cyl(grid, drops, mask, em)
             if f:
                 fails.append({"what": f, "input": inp})
+        dt = lc.FIELD_DTYPES[case_no % len(lc.FIELD_DTYPES)]
+        mrk = MIN_RADIUS_KINDS[(case_no // len(lc.FIELD_DTYPES)) % len(MIN_RADIUS_KINDS)]
+        ctx.count("cyl_image_dtype_second_call", dt)
+        ctx.count("cyl_minimal_radius_second_call", mrk)
+        if not isinstance(lc.emulsion_key(em), str):
+            from pde import ScalarField
+            f = second_call_failure(ScalarField(grid, mask.astype(float)), em, dt, mrk)
+            if f:
+                fails.append({"what": f, "input": {**inp, "dtype": dt, "minimal_radius": mrk}})
         ds = vlib.listlit([f"({vlib.qlit(c)}, {vlib.qlit(R)})" for c, R in drops])
         lits.append(f"({ds}, {c02.cyl_case_lit(grid, lab_pad, lab, cands, out, M)})")
         meta.append(inp)
@@ -336,6 +559,17 @@ def check(ctx: vlib.Ctx) -> int:
         bad = vlib.run_cases(ctx, "cyl", header, lits, "c01_cyl_agree", shard=150)
         for b in bad[:3]:
             ctx.broken.append(f"correspondence render+locate (cylindrical): model and implementation differ on {meta[b]}")
+    if ok and MINR_LITS:
+        hdr = "From Coq Require Import QArith ZArith List.\nImport ListNotations.\nFrom PD Require Import Model.Overlap Model.OverlapCases.\nLocal Open Scope Q_scope.\n"
+        bad = vlib.run_cases(ctx, "minr", hdr, MINR_LITS, "rs_agree", shard=700)
+        for b in bad[:3]:
+            ctx.broken.append(f"correspondence minimal_radius filter: model (remove_small) and implementation differ on {MINR_META[b]}")
+    ctx.count("minimal_radius_filter_cases_in_coq", len(MINR_LITS))
+    ctx.notes.append("second calls (image handed over as float32 / int64 / uint8 / bool data, minimal_radius boundary values) are compared bitwise with "
+                     "the reference call resp. with its droplets of radius > minimal_radius (documented filter of Emulsion.remove_small) in Python; "
+                     "the filter for finite minimal_radius is also compared with Model/Overlap.v remove_small inside Coq (stream minr); "
+                     "the reference call is the one that enters the in-Coq correspondence of image, candidates and result. All new grid kinds (1- and 2-cell axes, every origin kind, "
+                     "narrow / flat / tiny / long cylinders, radial grids with inner radius > 0 and a single cell) go through the in-Coq correspondence.")
     for f in fails[:3]:
         ctx.violations.append({**f, "found": True, "broken": ctx.broken[:3]})
     return vlib.finish(ctx, "", TRUSTED, ASSUME, RULE)
@@ -352,17 +586,24 @@ def replay(path: str) -> int:
         grid = CartesianGrid([tuple(b) for b in inp["bounds"]], inp["shape"], periodic=inp["periodic"])
         drops = [(c, r) for c, r in inp["droplets"]]
         field, mask, labels, em, rec = run_cart(grid, drops)
-        f = oracle_cart(grid, drops, em)
+        f = oracle_cart(grid, drops, em) if inp.get("stream", "property") == "property" else None
+        if f is None and "dtype" in inp:
+            f = second_call_failure(field, em, inp["dtype"], inp["minimal_radius"])
     elif fam == "cylindrical":
         from pde import CylindricalSymGrid
         grid = CylindricalSymGrid(inp["bounds"][0][1], tuple(inp["bounds"][1]), inp["shape"], periodic_z=inp["periodic_z"])
         drops = [(c, R) for c, R in inp["droplets"]]
         mask, em, exc, *_ = run_cyl(grid, drops)
         f = f"raised {exc}" if exc else oracle_cyl(grid, drops, mask, em)
+        if f is None and "dtype" in inp:
+            from pde import ScalarField
+            f = second_call_failure(ScalarField(grid, mask.astype(float)), em, inp["dtype"], inp["minimal_radius"])
     elif fam in ("PolarSymGrid", "SphericalSymGrid"):
         import pde
         grid = getattr(pde, fam)(tuple(inp["bounds"]), inp["n"])
-        mask, em = run_radial(grid, inp["radius"])
-        f = oracle_radial(grid, inp["radius"], mask, em)
+        field, mask, em = run_radial(grid, inp["radius"])
+        f = oracle_radial(grid, inp["radius"], mask, em, judge_volume=(inp["bounds"][0] == 0))
+        if f is None and "dtype" in inp:
+            f = second_call_failure(field, em, inp["dtype"], inp["minimal_radius"])
     print("property oracle on the current tree:", f or "holds")
     return 1 if f else 0
